@@ -147,38 +147,25 @@ Visit(w, g, st, n) ==
       [] OTHER -> st              \* _introspectable_symbol_collisions: diagnostics only
 
 \* namespace.walk(callback): the nodes in namespace order, each visit sees the effects of the earlier ones.
-\* (Unrolled fold, at most 12 nodes: TLC does not cache the lazily evaluated parameters of RECURSIVE
-\*  operators, so a recursive fold re-evaluates the whole prefix at every use of the accumulator.)
+\* Unrolled fold, at most 12 nodes, written as nested applications:
+\*  - TLC does not cache the lazily evaluated parameters of RECURSIVE operators, so a recursive fold
+\*    re-evaluates the whole prefix at every use of the accumulator;
+\*  - TLC's coverage/cost model (-coverage) expands a LET definition at each of its occurrences and once more
+\*    from the LET's context, so a chain of LET accumulators s1 .. s12 / r1 .. r9 makes a tree that is quadratic
+\*    (exponential if an accumulator is named twice) in Visit bodies: java.lang.OutOfMemoryError before the
+\*    first state.  Nested applications keep it linear: 12 Visit bodies per walk, 9 walks per Run.
 MaxNodes == 12
+VisitAt(w, g, o, i, st) == IF i <= Len(o) THEN Visit(w, g, st, o[i]) ELSE st
 Walk(w, C, st) ==
-    LET g == C.nodes  o == C.order  n == Len(C.order)
-        s1 == IF n >= 1 THEN Visit(w, g, st, o[1]) ELSE st
-        s2 == IF n >= 2 THEN Visit(w, g, s1, o[2]) ELSE s1
-        s3 == IF n >= 3 THEN Visit(w, g, s2, o[3]) ELSE s2
-        s4 == IF n >= 4 THEN Visit(w, g, s3, o[4]) ELSE s3
-        s5 == IF n >= 5 THEN Visit(w, g, s4, o[5]) ELSE s4
-        s6 == IF n >= 6 THEN Visit(w, g, s5, o[6]) ELSE s5
-        s7 == IF n >= 7 THEN Visit(w, g, s6, o[7]) ELSE s6
-        s8 == IF n >= 8 THEN Visit(w, g, s7, o[8]) ELSE s7
-        s9 == IF n >= 9 THEN Visit(w, g, s8, o[9]) ELSE s8
-        s10 == IF n >= 10 THEN Visit(w, g, s9, o[10]) ELSE s9
-        s11 == IF n >= 11 THEN Visit(w, g, s10, o[11]) ELSE s10
-        s12 == IF n >= 12 THEN Visit(w, g, s11, o[12]) ELSE s11
-    IN  s12
+    VisitAt(w, C.nodes, C.order, 12, VisitAt(w, C.nodes, C.order, 11, VisitAt(w, C.nodes, C.order, 10,
+    VisitAt(w, C.nodes, C.order, 9, VisitAt(w, C.nodes, C.order, 8, VisitAt(w, C.nodes, C.order, 7,
+    VisitAt(w, C.nodes, C.order, 6, VisitAt(w, C.nodes, C.order, 5, VisitAt(w, C.nodes, C.order, 4,
+    VisitAt(w, C.nodes, C.order, 3, VisitAt(w, C.nodes, C.order, 2, VisitAt(w, C.nodes, C.order, 1, st))))))))))))
 
 \* IntrospectablePass.validate(): the nine walks in their real order
 Run(C) ==
-    LET r0 == InitSt(C.nodes)
-        r1 == Walk(WalkNames[1], C, r0)
-        r2 == Walk(WalkNames[2], C, r1)
-        r3 == Walk(WalkNames[3], C, r2)
-        r4 == Walk(WalkNames[4], C, r3)
-        r5 == Walk(WalkNames[5], C, r4)
-        r6 == Walk(WalkNames[6], C, r5)
-        r7 == Walk(WalkNames[7], C, r6)
-        r8 == Walk(WalkNames[8], C, r7)
-        r9 == Walk(WalkNames[9], C, r8)
-    IN  r9
+    Walk(WalkNames[9], C, Walk(WalkNames[8], C, Walk(WalkNames[7], C, Walk(WalkNames[6], C, Walk(WalkNames[5], C,
+    Walk(WalkNames[4], C, Walk(WalkNames[3], C, Walk(WalkNames[2], C, Walk(WalkNames[1], C, InitSt(C.nodes))))))))))
 
 ---------------------------------------------------------------------------
 \* GIRWriter: the abstract GIR of the final state (same record shapes as harness/c05proj.py emits)
